@@ -12,6 +12,7 @@ op recv <mid> <u> <v>              impl first <fwd> | dup  v handled the copy se
 op recvx <mid> <u> <v>             impl first <fwd> | dup  same, no exact prediction (`model -`)
 op quiet <mid>                     impl dlv <nodes>        network quiescent; nodes delivered to
 op quietx <mid>                    impl dlv <nodes>        same, at-least-once clause not applied
+op sendx <mid> <u> <w>             impl ok                 u answered an IWANT of w (Spec only)
 ```
 -/
 namespace Driver.C27
@@ -22,6 +23,7 @@ structure Msg where
   cfg : Cfg
   st : State
   got : List Node
+  src : List (Node × Node) := []
 
 structure DS where
   n : Nat := 0
@@ -124,6 +126,7 @@ def op (d : DS) (args : List String) : DS × String :=
       | none => (d, "unknown-message")
     | _, _, _ => (d, "bad-op")
   | ["recvx", _, _, _] => (d, "-")
+  | ["sendx", _, _, _] => (d, "-")
   | ["quiet", mid] =>
     match mid.toNat?.bind d.find with
     | some m =>
@@ -161,9 +164,14 @@ def spec (d : DS) (args outs : List String) : DS × String :=
       | some mid, some u, some v, some o =>
         match d.find mid with
         | some m =>
-          (d.put { m with got := gotAfter m.got v o }, verdict (specRecv m.cfg m.got u v o))
+          let src' := match o with | .first _ => (v, u) :: m.src | _ => m.src
+          (d.put { m with got := gotAfter m.got v o, src := src' }, verdict (specRecv m.cfg m.got u v o))
         | none => (d, "FAIL:unknown_message")
       | _, _, _, _ => (d, "FAIL:unparsable")
+    else if k == "sendx" then
+      match mid.toNat?.bind d.find, u.toNat?, v.toNat? with
+      | some m, some u, some w => (d, verdict (specSend m.cfg m.src u w))
+      | _, _, _ => (d, "FAIL:unparsable")
     else (d, "FAIL:unparsable")
   | [k, mid] =>
     match mid.toNat?.bind d.find, outs with
